@@ -989,6 +989,17 @@ Proof.
     destruct (blrp_size (r_opt_batch i) (r_env_batch i)) as [b|] eqn:B;
     try (apply blrp_size_ge1 in Q); try (apply blrp_size_ge1 in B); repeat split; try lia; congruence.
 Qed.
+Lemma blrp_export_ok i : blrp_export_timeout i = blrp_export_expected i /\ 1 <= blrp_export_timeout i.
+Proof.
+  unfold blrp_export_timeout, blrp_export_expected, blrp_dur_getenv, clear_lt1, atleast1, first_of, get_or, or_dflt, rd_int, present.
+  destruct (r_opt_export i) as [x|]; [destruct (x <? 1) eqn:E|]; cbn; rewrite ?E;
+    destruct (r_env_export i) as [|c v]; cbn [is_nil negb option_map]; try (split; [reflexivity|lia]);
+    destruct (atoi (c :: v)) as [n|]; cbn [option_map]; try (split; [reflexivity|lia]);
+    destruct (ms_to_ns n <? 1) eqn:E2; split; try reflexivity; lia.
+Qed.
+Lemma deadline_same t : export_deadline t = deadline_expected t.
+Proof. reflexivity. Qed.
+
 Lemma first_int_rd a b d : first_int d [a; b] = rd_limit2 a b d.
 Proof. unfold first_int, rd_limit2, present, get_or. destruct a, b; reflexivity. Qed.
 Lemma new_limits_rd e : new_span_limits e = limits_from_env e.
